@@ -476,11 +476,16 @@ func init() {
 	// a channel taken with Txn.Get inside the later transaction, between its two operations
 	txnget := HarnessRun{Entry: "VerifC12Watch", Params: map[string]int{"N1": 1, "N2": 2, "L": 1, "ROOTONLY": 0, "MODIFYWATCH": 0, "TXNGET": 1, "WL": 0},
 		Covers: []string{"C12.committed", "C12.txnget", "C12.end"}, DiffRuns: 20}
+	// {"ab","ac","ad","x"}: an insert that fills the node, Txn.Get of a symbolic key, then an operation that may grow the node
+	txnget8 := HarnessRun{Entry: "VerifC12Watch", Params: map[string]int{"PRESET": 8, "N1": 0, "N2": 2, "L": 2, "ALPHA": 1, "TXNGET": 1, "WL": 0, "FIRSTINS": 1},
+		Covers: []string{"C12.committed", "C12.txnget", "C12.end"}, DiffRuns: 20}
 	reg(&CheckSpec{
 		ID: "C12", PkgDir: "part",
-		Quick:    []HarnessRun{w(1, 2, 1, 0, 0), w(1, 2, 1, 1, 0), txnget, w(2, 1, 1, 0, 1), w(1, 1, 2, 0, 0), w(1, 1, 2, 1, 0), preset(1, 1), preset(2, 1), preset(4, 1), preset(5, 1), preset(6, 1), merge7},
-		Thorough: []HarnessRun{preset(3, 1), w(1, 2, 1, 1, 1), w(2, 1, 1, 1, 0)},
-		Outside:  []string{"pre-state shapes: PRESET 1-7 are concrete 3-6 key trees (keys that are prefixes of one another, a node with 5 children, an inner node with a value and a single inner-node child); in the PRESET 7 run symbolic key bytes range over {a..e,x}, the first operation is a delete of a key of at most one byte and watched keys have at most two bytes", "outside: trees deeper than the keys of length <= L allow; more than N1 pre-state keys and N2 later operations; channels of write-transaction queries"},
+		Quick:    []HarnessRun{w(1, 2, 1, 0, 0), w(1, 2, 1, 1, 0), txnget, txnget8, w(2, 1, 1, 0, 1), w(1, 1, 2, 0, 0), w(1, 1, 2, 1, 0), preset(1, 1), preset(2, 1), preset(4, 1), preset(5, 1), preset(6, 1), merge7},
+		Thorough: []HarnessRun{preset(3, 1), w(1, 2, 1, 1, 1), w(2, 1, 1, 1, 0),
+			{Entry: "VerifC12Watch", Params: map[string]int{"PRESET": 8, "N1": 0, "N2": 2, "L": 2, "ALPHA": 1, "TXNGET": 1, "WL": 0}, Covers: []string{"C12.txnget", "C12.end"}, DiffRuns: 20},
+			{Entry: "VerifC12Watch", Params: map[string]int{"N1": 1, "N2": 2, "L": 1, "TXNGET": 1}, Covers: []string{"C12.txnget", "C12.end"}, DiffRuns: 20}},
+		Outside:  []string{"pre-state shapes: PRESET 1-7 are concrete 3-6 key trees (keys that are prefixes of one another, a node with 5 children, an inner node with a value and a single inner-node child); in the PRESET 7 run symbolic key bytes range over {a..e,x}, the first operation is a delete of a key of at most one byte and watched keys have at most two bytes", "TXNGET=1: one channel taken with Txn.Get(k) inside the later transaction after its first operation; it must be closed after Commit+Notify if a later operation of that transaction changed k, and at the latest when a following transaction changes k", "outside: trees deeper than the keys of length <= L allow; more than N1 pre-state keys and N2 later operations; Prefix/iterator channels taken inside a transaction"},
 	})
 }
 
@@ -617,6 +622,8 @@ func init() {
 	reg(&CheckSpec{
 		ID: "C07", PkgDir: "statedb",
 		Quick:    []HarnessRun{c07(map[string]int{"N": 3, "PRE": 1, "CAS": 0}, 60), c07cas(2), {Entry: "VerifKFNextUncommitted"},
+			// step 4: Next through a write transaction on another table that predates a commit to the iterated table
+			{Entry: "VerifC07Changes", Params: map[string]int{"N": 2, "PRE": 1, "CAS": 0, "STEPMAX": 4}, Covers: []string{"C07.next-with-older-writetxn", "C07.end"}, DiffRuns: 30},
 			// the same delivery clause with the graveyard collector running (C08's harness): Next through a WriteTxn with a pending delete, then GC, then a lagging Next
 			{Entry: "VerifC08Graveyard", Params: map[string]int{"N": 2, "NIT": 2, "STEPMAX": 6, "CAS": 0}, Covers: []string{"C08.next-with-writetxn", "C08.end"}, NoNative: true, Preempt: 0, Deadlock: true},
 			c08partial},
@@ -624,7 +631,7 @@ func init() {
 			{Entry: "VerifC07Changes", Params: map[string]int{"N": 2, "PRE": 2, "CAS": 1}, Covers: []string{"C07.rejected-cas", "C07.end"}, DiffRuns: 30}},
 		Known:    []KnownProbe{{ID: "KF-next-uncommitted-deletes", Entry: "VerifKFNextUncommitted"}},
 		Outside: []string{"outside: interleaving with graveyard collection and with other iterators being created/closed (one iterator, no collector runs: see C08); the Observable wrapper; finalizer-driven close; more than N steps after PRE concrete objects; keys longer than L",
-			"steps: write txn (insert/delete, commit/abort) | Next(fresh ReadTxn) fully consumed | Next(open WriteTxn with a pending write) | Next partially consumed (1 element)"},
+			"steps: write txn (insert/delete, commit/abort) | Next(fresh ReadTxn) fully consumed | Next(open WriteTxn with a pending write) | Next partially consumed (1 element) | Next(WriteTxn on another table, opened before a later commit to the iterated table)"},
 	})
 	c19 := func(n, acts, diff int) HarnessRun {
 		return HarnessRun{Entry: "VerifC19Init", Params: map[string]int{"N": n, "ACTS": acts}, Covers: []string{"C19.committed", "C19.aborted", "C19.became-initialized", "C19.end"}, DiffRuns: diff}
@@ -649,6 +656,8 @@ func init() {
 		Quick: []HarnessRun{
 			{Entry: "VerifC05Serial", Covers: []string{"C05.disjoint-commit", "C05.blocked", "C05.newtable", "C05.end"}, NoNative: true, Deadlock: true},
 			{Entry: "VerifKFCommitDropsNewTable"},
+			// one thread, every table list (orders, adjacent and non-adjacent duplicates): WriteTxn must return and hold each table once
+			{Entry: "VerifC10Threads", Params: map[string]int{"T": 1, "LISTMAX": 7, "KINDMAX": 0}, Covers: []string{"C10.end"}, NoNative: true, Preempt: 1, Deadlock: true},
 			{Entry: "VerifC10Threads", Params: map[string]int{"T": 2, "LISTMAX": 3, "KINDMAX": 0}, Covers: []string{"C10.end"}, NoNative: true, Preempt: 1, Deadlock: true},
 			{Entry: "VerifC10Threads", Params: map[string]int{"T": 2, "LISTMAX": 1, "KINDMAX": 2}, Covers: []string{"C10.end"}, NoNative: true, Preempt: 1, Budget2: 3, Deadlock: true},
 			// every atomic / unlock / channel operation is a scheduling point: two committers on disjoint tables
@@ -694,6 +703,9 @@ func init() {
 			{Entry: "VerifC08Graveyard", Params: map[string]int{"N": 2, "NIT": 2, "STEPMAX": 6, "CAS": 0}, Covers: []string{"C08.next-with-writetxn", "C08.end"}, NoNative: true, Preempt: 0, Deadlock: true},
 			// STEPS 145 = write | collector window | partial consumption (first pending change only)
 			c08partial, c08held,
+			// after a scripted deletion: catch-ups, closes and collector windows of two iterators (STEPS 28); an iterator that is
+			// already caught up is not given one more Next before the graveyard must drain
+			{Entry: "VerifC08Graveyard", Params: map[string]int{"N": 3, "NIT": 2, "SCRIPT": 2, "STEPS": 4 | 8 | 16, "NOFINALDRAIN": 1, "CAS": 0}, Covers: []string{"C08.caught-up-iterator-left-alone", "C08.closed", "C08.end"}, NoNative: true, Preempt: 0, Deadlock: true},
 			// two tables with one iterator each: one collection run with collectable entries in both
 			{Entry: "VerifC08TwoTables", Covers: []string{"C08.two.gc-window", "C08.two.end"}, NoNative: true, Deadlock: true},
 		},
@@ -721,7 +733,10 @@ func init() {
 		ID: "C02", PkgDir: "statedb",
 		Quick: []HarnessRun{c02(2),
 			// a table is registered while the observed transaction is open (Commit merges into a grown root)
-			{Entry: "VerifC02Atomic", Params: map[string]int{"N": 1, "L": 1, "NEWTABLE": 1}, Covers: []string{"C02.table-registered-meanwhile", "C02.committed", "C02.end"}, NoNative: true}},
+				{Entry: "VerifC02Atomic", Params: map[string]int{"N": 1, "L": 1, "NEWTABLE": 1}, Covers: []string{"C02.table-registered-meanwhile", "C02.committed", "C02.end"}, NoNative: true},
+			// two committing threads (possibly on the same table), every synchronisation operation a scheduling point:
+			// the snapshot returned by Commit must be the state that Commit published
+			{Entry: "VerifC10Threads", Params: map[string]int{"T": 2, "LISTMAX": 1, "KINDMAX": 0, "COMMITONLY": 1}, Covers: []string{"C10.end"}, NoNative: true, Preempt: 2, Budget2: 2, Deadlock: true}},
 		Thorough: []HarnessRun{c02(3), {Entry: "VerifC02Atomic", Params: map[string]int{"N": 2, "L": 2}, Covers: []string{"C02.end"}, NoNative: true}},
 		Outside: []string{"one run registers a third table while the observed transaction is open", "outside: more than two tables / N writes per transaction; observation points are the synchronisation operations (atomic store/swap, mutex lock/unlock, channel close) executed between WriteTxn's return and the end of Commit/Abort - the states a concurrent reader (one atomic root load) can distinguish; finer instruction-level interleavings and weak memory are not explored",
 			"VM-only vocabulary (sync observer): counterexamples are replayed concretely in the VM on the real code"},
@@ -773,7 +788,9 @@ func init() {
 		Known:    []KnownProbe{{ID: "KF-retry-status-lost", Entry: "VerifKFRetryStatusLost"}},
 		Outside:  outside})
 	reg(&CheckSpec{ID: "C15", PkgDir: "reconciler",
-		Quick:    []HarnessRun{rounds(15, base), rounds(15, two), rounds(15, batch), rounds(15, sset), probe, pruneRun, refreshRun},
+		Quick:    []HarnessRun{rounds(15, base), rounds(15, two), rounds(15, batch), rounds(15, sset), probe, pruneRun, refreshRun,
+			// StatusSet as a persistent value: Set/Pending applied to any earlier version never changes another version
+			{Entry: "VerifC15StatusSet", Params: map[string]int{"N": 2, "PRE": 3}, Covers: []string{"C15.statusset.pending", "C15.statusset.end"}, DiffRuns: 20}},
 		Thorough: []HarnessRun{rounds(15, mid)},
 		Outside:  append([]string{"Refresh: VerifC15Refresh runs the real refreshLoop as a VM thread (two old Done objects, 10 ms refresh interval, up to 3 user writes placed wherever the refresher yields)", "Prune gating: VerifC15Prune runs the real reconcileLoop as a VM thread under virtual time (10 ms prune interval, pending initializer for 0..3 periods, optional explicit Prune() before initialization)"}, outside...)})
 	reg(&CheckSpec{ID: "C16", PkgDir: "reconciler",
@@ -786,5 +803,5 @@ func init() {
 			{Entry: "VerifC16Retries", Params: map[string]int{"N": 4}, Covers: []string{"C16.popped", "C16.timer-fired", "C16.retries.end"}, NoNative: true, Deadlock: true},
 			{Entry: "VerifC16Retries", Params: map[string]int{"N": 5, "OPS": 3, "NOBJ": 2}, Covers: []string{"C16.popped", "C16.retries.end"}, NoNative: true, Deadlock: true},
 			rounds(16, mid)},
-		Outside: append([]string{"backoff configurations are concrete ((1,1),(1,4),(2,8),(100,60000) ms): math.Pow on floats is evaluated natively by the VM, not encoded; spurious early wake-ups of the retry timer are not violations; WaitUntilReconciled is checked through progressTracker.wait with a cancelled context after every round"}, outside...)})
+		Outside: append([]string{"backoff configurations are concrete ((1,1),(1,4),(2,8),(100,60000) ms, attempts 1..80): math.Pow on floats is evaluated natively by the VM, not encoded; spurious early wake-ups of the retry timer are not violations; WaitUntilReconciled is checked through progressTracker.wait with a cancelled context after every round"}, outside...)})
 }
